@@ -56,6 +56,8 @@ def spec_at(spec, tree, path):
             spec = spec.cases[(i - 1) // 2][(i - 1) % 2]
         elif k in ('auto', 'fill', 'match', 'spec'):
             spec = spec.spec
+        elif k == 'iter':
+            spec = spec.subspec
         elif k == 'mdict':
             spec = list(spec.d.items())[0][i - 1]
         tree = tree['c'][i - 1]
@@ -226,6 +228,7 @@ def rand_tree(rng, depth):
     if depth == 0 or rng.random() < 0.2:
         return {'k': rng.choice(['new', 'same', 'new', 'same', 'smiss']), 'a': '', 'c': []}
     k = rng.choice(['tup', 'tup', 'pipe', 'dict', 'coal', 'coal', 'or', 'and', 'not', 'switch', 'fill'])
+    # (lazy Iter shapes are enumerated by MC_C05 at positions where the root target flows in)
 
     def sub():
         return rand_tree(rng, depth - 1)
@@ -301,7 +304,7 @@ def collect(tree, spec, path, index):
 
 def run_mutants(check):
     rejected = []
-    for m in ('nowalk', 'noforgive'):
+    for m in ('nowalk', 'noforgive', 'lazydup'):
         res = vlib.run_tlc('MC_C05', cfg='MC_C05_' + m, constants=dict(MaxDepth=2, SecondDepth=0, MaxLeaves=4))
         if not res['violated']:
             raise vlib.MachineryError('mechanism mutant %s not rejected by the C05 laws' % m)
@@ -331,7 +334,6 @@ def main(tier, seed):
     check.extra['recorded_rows'] = record(check, {'quick': 1500, 'thorough': 15000}[tier], seed)
     check.extra['constants'] = consts
     check.assumptions += ['payload text (reprs) is glom\'s own bbrepr of the real spec / target objects; truncation is accepted as a prefix',
-                          'errors raised inside lazily consumed Iter generators are not part of the universe (see DESIGN.md section 6)',
                           'the wording of error messages is not compared, only class and, for planted errors, identity']
     return check.finish(rule='TLC explores every tree of depth <= MaxDepth over 7 binary composites, Not and Fill x every leaf-by-leaf '
                         'failure plan; each failing complete run is replayed; non-trivial = trace of at least 4 lines', exhaustive=True)
